@@ -297,3 +297,27 @@ package client
 //@   ensures result <==> len(indexMap) == numParts && forall k int :: 0 <= k && k < len(indexMap) ==> indexMap[k] < numPartsParent
 //@   loop 1
 //@     invariant forall k int :: 0 <= k && k < $i ==> indexMap[k] < numPartsParent
+
+// Sub-channel funding/settlement filters (C07): an update is selected for automatic acceptance only if it adds (removes)
+// exactly the sub-channel's sub-allocation and moves exactly the sub-channel's balances out of (into) the participants' balances.
+//@ pred balancesMoved(cur channel.Balances, n channel.Balances, d channel.Balances, sign int) =
+//@   sameDims(cur, d) && sameDims(cur, n) &&
+//@   forall a, p int :: 0 <= a && a < len(cur) && 0 <= p && p < len(cur[a]) ==> val(n[a][p]) == (sign == 1 ? val(cur[a][p]) + val(d[a][p]) : val(cur[a][p]) - val(d[a][p]))
+
+//@ pred subFundOK(c *Channel, id channel.ID, bals channel.Balances, n *channel.State) =
+//@   !lockedHas(chanState(c).Locked, id) && lockedHas(n.Locked, id) && balancesMoved(chanState(c).Balances, n.Balances, bals, 0) &&
+//@   forall i int :: firstFor(n.Locked, id, i) ==> len(n.Locked[i].Bals) == len(bals) && len(n.Locked[i].IndexMap) == 0 &&
+//@     (forall a int :: 0 <= a && a < len(bals) ==> val(n.Locked[i].Bals[a]) == balSum(bals[a])) && lockedMinus(n.Locked, chanState(c).Locked, i)
+
+// (the free variables of a closure are references to the captured variables: *c, *id, *bals)
+//@ func (*Channel).registerSubChannelFunding$1
+//@   requires chanWF(*c) && stateDecoded(cu.State) && nonNilBalances(*bals)
+//@   ensures result ==> subFundOK(*c, *id, *bals, cu.State)
+
+//@ pred subSettleOK(c *Channel, id channel.ID, bals channel.Balances, n *channel.State) =
+//@   lockedHas(chanState(c).Locked, id) && !lockedHas(n.Locked, id) && balancesMoved(chanState(c).Balances, n.Balances, bals, 1) &&
+//@   forall i int :: firstFor(chanState(c).Locked, id, i) ==> lockedMinus(chanState(c).Locked, n.Locked, i)
+
+//@ func (*Channel).registerSubChannelSettlement$1
+//@   requires chanWF(*c) && stateDecoded(cu.State) && nonNilBalances(*bals) && sameDims(chanState(*c).Balances, *bals)
+//@   ensures result ==> subSettleOK(*c, *id, *bals, cu.State)
